@@ -487,12 +487,78 @@ def r20f(ctx: Context) -> None:
                 rule.fail(key, where(func, atom), f"'{norm(atom)[:80]}' tests whether an extension is enabled, but nothing that runs only when it holds belongs to that extension: the test steers ordinary parser logic, so documents without the extension's syntax parse differently once it is enabled")
 
 
+# third-party parsers called from inside the parse pipeline, and the root of their exception hierarchy: a handler
+# for a sub-family (yaml.MarkedYAMLError: scanner / parser / composer / constructor errors) lets the rest through
+# (yaml.reader.ReaderError for a control character, ...)
+LIBRARY_ERROR_ROOTS = {"yaml": {"YAMLError", "Exception", "BaseException"}}
+
+
+def library_errors_contained(ctx: Context, rule_id: str = "R20g") -> None:
+    """'A block that is not valid YAML is fed back to the normal processor': whatever the library raises for a text
+    it cannot load must be caught where the extension calls it - otherwise enabling the extension turns a document
+    that plain CommonMark parses into a tokenization error."""
+    prog = ctx.prog
+    rule = ctx.rule(rule_id, "every call into a third-party parser from the parse pipeline is enclosed by a handler for the library's root exception", 1)
+    found = 0
+    for func in prog.iter_functions():
+        if not (func.rel.startswith(PARSER_PACKAGES) or func.rel.startswith("pymarkdown/extensions/")):
+            continue
+        for site in prog.sites_in(func):
+            library = (site.external or "").split(".")[0]
+            if library not in LIBRARY_ERROR_ROOTS or site.targets:
+                continue
+            found += 1
+            key = func_key(func, site.node)
+            caught: Set[str] = set()
+            for candidate in walk_local(func.node):
+                if isinstance(candidate, ast.Try) and any(sub is site.node for stmt in candidate.body for sub in ast.walk(stmt)):
+                    for handler in candidate.handlers:
+                        if handler.type is None:
+                            caught.add("BaseException")
+                        else:
+                            for sub in (handler.type.elts if isinstance(handler.type, ast.Tuple) else [handler.type]):
+                                caught.add((dotted(sub) or "").split(".")[-1])
+            if caught & LIBRARY_ERROR_ROOTS[library]:
+                rule.ok(key, f"{site.external} under a handler for {sorted(caught & LIBRARY_ERROR_ROOTS[library])}")
+            else:
+                rule.fail(key, site.where, f"{site.external} is called with document text under handlers for {sorted(caught) or 'nothing'} only: the other errors of the library ({library}.YAMLError is the root; e.g. ReaderError for a control character, or ComposerError / ConstructorError when only scanner and parser errors are named) escape and the document ends as a tokenization error instead of being parsed as plain Markdown")
+    if found == 0:
+        raise AnalysisError("no call into the YAML library found in the parse pipeline (front matter anchor moved)")
+
+
+def r20h(ctx: Context) -> None:
+    """'Enabling an extension changes the parse only of documents that contain its syntax': the syntax of the
+    disallowed-raw-HTML extension is the configured tag names, whole.  Its decision function may compare the tag
+    name with those names; anything that accepts a part of the name (prefix / suffix tests, unanchored or
+    start-anchored regular-expression matching, substring search) also filters tags nobody configured."""
+    prog = ctx.prog
+    rule = ctx.rule("R20h", "the disallowed-tag decision compares whole tag names (no prefix, suffix, substring or unanchored pattern match)", 1)
+    decide = prog.method("pymarkdown.extensions.disallowed_raw_html.MarkdownDisallowRawHtmlExtension", "is_html_tag_disallowed")
+    closure = [prog.functions[q] for q in sorted(prog.reachable([decide])) if prog.functions[q].cls == decide.cls]
+    partial = {"startswith", "endswith", "find", "rfind", "index", "rindex", "match", "search", "findall", "finditer", "partition", "rpartition"}
+    problems = 0
+    for func in closure:
+        for node in walk_local(func.node):
+            if isinstance(node, ast.Call) and isinstance(node.func, ast.Attribute) and node.func.attr in partial:
+                problems += 1
+                rule.fail(func_key(func, node), where(func, node), f"'{norm(node)[:70]}' accepts a tag whose name merely starts with / contains a configured name ('{node.func.attr}' is not a whole-name comparison): with the extension enabled, tags that were never disallowed (<titlebar>, <scripts>, ...) are filtered, so documents without the extension's syntax parse differently")
+            if isinstance(node, ast.Compare) and len(node.ops) == 1 and isinstance(node.ops[0], (ast.In, ast.NotIn)):
+                typ = prog.infer(func, node.comparators[0])
+                if typ and typ[0] == "str":
+                    problems += 1
+                    rule.fail(func_key(func, node), where(func, node), f"'{norm(node)[:70]}' is a substring test on a string, not a membership test in the set of disallowed names")
+    if not problems:
+        rule.ok(func_key(decide), f"{len(closure)} function(s): whole-name comparison only")
+
+
 def run(ctx: Context) -> None:
     r20a(ctx)
     r20b(ctx)
     r20c(ctx)
     r20d(ctx)
     r20f(ctx)
+    library_errors_contained(ctx)
+    r20h(ctx)
     from sa.rules import c11
 
     # a document without an extension's syntax must not inherit that extension's state from an earlier one
